@@ -81,14 +81,24 @@ fn prove_bb<EF, const D: usize>(circuit: &Circuit<EF>, pubs: &[EF]) -> Outcome
 where
     EF: Field + p3_field::ExtensionField<BB> + BasedVectorSpace<BB> + p3_circuit_prover::field_params::ExtractBinomialW<BB>,
 {
+    prove_bb_forged::<EF, D>(circuit, pubs, None)
+}
+
+fn prove_bb_forged<EF, const D: usize>(circuit: &Circuit<EF>, pubs: &[EF], forge: Option<&dyn Fn(&mut p3_circuit::Traces<EF>)>) -> Outcome
+where
+    EF: Field + p3_field::ExtensionField<BB> + BasedVectorSpace<BB> + p3_circuit_prover::field_params::ExtractBinomialW<BB>,
+{
     let mut r = circuit.runner();
     if let Err(e) = r.set_public_inputs(pubs) {
         return Outcome::RunRejected(format!("{e:?}"));
     }
-    let traces = match r.run() {
+    let mut traces = match r.run() {
         Ok(t) => t,
         Err(e) => return Outcome::RunRejected(format!("{e:?}")),
     };
+    if let Some(f) = forge {
+        f(&mut traces);
+    }
     match quiet_catch(|| {
         let cfg = vpe1::accept::fast_baby_bear();
         let packing = TablePacking::default();
@@ -242,7 +252,29 @@ fn run_case(w: &Work) -> Outcome {
             let mut pubs = vec![BB::from_u64(*xv)];
             pubs.extend(d.iter().map(|x| *x * BB::from_u64(K)));
             match with_hint(&c, 0, d) {
-                Some(c2) => prove_bb::<BB, 1>(&c2, &pubs),
+                Some(c2) => {
+                    let direct = prove_bb::<BB, 1>(&c2, &pubs);
+                    if !matches!(direct, Outcome::Rejected(_)) {
+                        return direct;
+                    }
+                    // the honest runner writes the (non-boolean) digit into every cell of its
+                    // BoolCheck row; a malicious prover may put a boolean into the checked cell
+                    // `a` and keep the digit in the cells that go to the bus
+                    let forge = |t: &mut p3_circuit::Traces<BB>| {
+                        for r in 0..t.alu_trace.values.len() {
+                            if t.alu_trace.op_kind[r] == p3_circuit::ops::AluOpKind::BoolCheck {
+                                let a = t.alu_trace.values[r][0];
+                                if a != BB::ZERO && a != BB::ONE {
+                                    t.alu_trace.values[r][0] = BB::ZERO;
+                                }
+                            }
+                        }
+                    };
+                    match prove_bb_forged::<BB, 1>(&c2, &pubs, Some(&forge)) {
+                        Outcome::Accepted => Outcome::Accepted,
+                        _ => direct,
+                    }
+                }
                 None => Outcome::Panic("hint not found".into()),
             }
         }
